@@ -15,7 +15,7 @@ func propC03() Property {
 		ID: "C03",
 		Explanation: "R1 (clip guard): the requested end is replaced by (next outbound − 1) exactly under {end = 0 ∧ BeginString ≥ FIX.4.2} ∨ {end = 999999 ∧ BeginString ≤ FIX.4.2} ∨ {end ≥ next outbound}, and the replay runs from the requested begin to that end. " +
 			"R2 (stamping order): the replay stamper sets PossDupFlag(43)=Y and OrigSendingTime(122) ← SendingTime(52) read BEFORE tag 52 is rewritten, then rewrites tag 52. R3: a stored message is re-sent only when it is not administrative and the application's resend callback agreed; otherwise its number is covered by a gap fill. " +
-			"R4 (body identity): replayed bytes are buildWithBodyBytes(bodyBytes of the message parsed from the stored bytes), under its original MsgSeqNum (tag 34 is not touched by the stamper). R5 (gap fill): SequenceReset(4) with MsgSeqNum(34) ← begin parameter, NewSeqNo(36) ← end parameter, GapFillFlag(123)=Y, PossDupFlag(43)=Y; gap fills are emitted before a re-sent message when numbers were skipped and after the loop for the tail, with NewSeqNo = the next number replayed.",
+			"R4 (body identity): replayed bytes are buildWithBodyBytes(bodyBytes of the message parsed from the stored bytes), under its original MsgSeqNum (tag 34 is not touched by the stamper). R5 (gap fill): SequenceReset(4) with MsgSeqNum(34) ← begin parameter, NewSeqNo(36) ← end parameter, GapFillFlag(123)=Y, PossDupFlag(43)=Y; gap fills are emitted before a re-sent message when numbers were skipped and after the loop for the tail, with NewSeqNo = the next number replayed. R6 (what bodyBytes is): in the message parser the mark that ends the body (trailerBytes ← remaining bytes) is moved only after a field that was classified as a body field or group member — never after the header/trailer field that terminates a repeating group — so the bytes replayed as the body exclude CheckSum/Signature.",
 		NotDecided: "contiguity of coverage as arithmetic over the stored history (the seqNum/nextSeqNum bookkeeping over all histories); byte-for-byte identity of the transmitted frame.",
 		Rules: []RuleDef{
 			{ID: "C03-R1", Desc: "ResendRequest range clipping", Min: 2, Run: c03R1},
@@ -23,6 +23,7 @@ func propC03() Property {
 			{ID: "C03-R3", Desc: "never replay administrative or declined messages", Min: 2, Run: c03R3},
 			{ID: "C03-R4", Desc: "replayed body bytes and sequence number are the stored ones", Min: 3, Run: c03R4},
 			{ID: "C03-R5", Desc: "gap-fill field binding and placement", Min: 6, Run: c03R5},
+			{ID: "C03-R6", Desc: "the end-of-body mark moves only over body fields", Min: 3, Run: c03R6},
 		},
 	}
 }
@@ -353,5 +354,62 @@ func c03R5(c *Ctx) {
 			okE := endO.Kind == "binop" && endO.Op == token.ADD && endO.X.Kind == "param" && endO.Y.IsConstInt(1)
 			c.Check(okG && okE, FuncName(replay), p.InstrPos(cl), "gapfill-nopersist", "without persistence the whole range is gap-filled to end+1", "whole-range gap fill runs under "+d.String()+" with NewSeqNo "+endO.String())
 		}
+	}
+}
+
+// c03R6: stores msgParser.trailerBytes ← load(rawBytes) taken AFTER a field extraction are
+// guarded by the classification of that field as body (¬header ∧ ¬trailer, or group member).
+func c03R6(c *Ctx) {
+	p := c.P
+	fTrailer := p.Field(modPath, "msgParser", "trailerBytes")
+	fRaw := p.Field(modPath, "msgParser", "rawBytes")
+	isExtract := func(in ssa.Instruction) bool {
+		cl, ok := in.(ssa.CallInstruction)
+		if !ok {
+			return false
+		}
+		cal := cl.Common().StaticCallee()
+		return cal != nil && strings.HasPrefix(cal.Name(), "extract")
+	}
+	n := 0
+	for _, st := range p.FieldStores(fTrailer) {
+		fn := st.Fn
+		name := FuncName(fn)
+		ld, ok := stripConv(st.Store.Val).(*ssa.UnOp)
+		if !ok || fieldAddrOf(ld.X, fRaw) == nil {
+			continue // constant / empty slice initialisation
+		}
+		n++
+		// post-extract load?
+		post := false
+		for _, in := range ld.Block().Instrs {
+			if in == ssa.Instruction(ld) {
+				break
+			}
+			if isExtract(in) {
+				post = true
+			}
+		}
+		if !post {
+			ForEachInstr(fn, func(in ssa.Instruction) {
+				if isExtract(in) && in.Block() != ld.Block() && in.Block().Dominates(ld.Block()) {
+					post = true
+				}
+			})
+		}
+		if !post {
+			c.OK(name, p.InstrPos(st.Store), "end-of-body mark set from the bytes before any extraction in this function (the caller classified the field)")
+			continue
+		}
+		d := p.ReachCond(st.Store.Block())
+		notHdr := d.Implies(func(a *Atom) bool { return a.Rel == "" && !a.Val && a.B.IsCallTo("isHeaderField") })
+		notTrl := d.Implies(func(a *Atom) bool { return a.Rel == "" && !a.Val && a.B.IsCallTo("isTrailerField") })
+		member := d.Implies(func(a *Atom) bool { return a.Rel == "" && a.Val && a.B.IsCallTo("isGroupMember") })
+		noBody := d.Implies(func(a *Atom) bool { return a.Rel == "" && !a.Val && a.B.Kind == "field" && a.B.Field.Name() == "foundBody" })
+		c.Check(notHdr && notTrl || member || noBody, name, p.InstrPos(st.Store), "body-end-mark", "end-of-body mark moved only over a body field / group member",
+			"the end-of-body mark (trailerBytes) is moved after extracting a field without knowing that it is a body field (reach "+d.String()+"): when a header or trailer field terminates a repeating group, CheckSum ends up inside bodyBytes and a replay built from them has two CheckSum fields and a wrong BodyLength")
+	}
+	if n < 2 {
+		c.Violation("", "-", "no-body-mark", "the parser does not maintain the end-of-body mark")
 	}
 }
